@@ -1191,7 +1191,7 @@ fn required_probes(prop: &str) -> &'static [&'static str] {
         "C05" => &["reach.registry_above_256_entries", "fault.unwind_in_type_info.fired", "reach.registration_after_an_unwound_one", "reach.redelivery_of_known_identity", "reach.duplicate_after_unrelated_registrations", "reach.alias_registered_before_target", "reach.register_many_same_type_twice", "fault.duplicate_delivery"],
         "C10" => &["frame_source.chain_registry", "frame_source.duplicate_description", "checks.retain_after_decode", "reach.retain_on_registry_with_bit_sequence", "reach.retain_partial", "reach.retain_kept_everything", "reach.retain_kept_nothing", "reach.retain_pulled_in_unaccepted_dependency", "reach.retain_kept_a_cycle_and_dropped_something"],
         "C11" => &["fault.unwind_in_type_info.fired", "reach.registration_after_an_unwound_one", "checks.fault_injecting_configuration", "reach.replica_order_differs", "checks.replay", "checks.replica_compared", "fault.reordered_delivery", "fault.duplicate_delivery"],
-        "C12" => &["reach.builder_table_above_256", "reach.builder_table_above_1000", "reach.builder_table_above_16384", "fault.unwind_in_key_clone_or_cmp.fired", "reach.unwound_operation_had_no_effect", "checks.interner_fault_injecting_configuration", "reach.builder_duplicate_after_unrelated_inserts", "reach.builder_self_reference_through_next_type_id", "reach.builder_self_reference_deduplicated_to_older_index", "reach.builder_get_beyond_end", "reach.interner_resolve_out_of_range", "reach.interner_get_unknown", "reach.interner_duplicate_after_unrelated_inserts"],
+        "C12" => &["reach.builder_table_above_256", "reach.builder_table_above_1000", "reach.builder_table_above_16384", "reach.builder_table_above_65536", "fault.unwind_in_key_clone_or_cmp.fired", "reach.unwound_operation_had_no_effect", "checks.interner_fault_injecting_configuration", "reach.builder_duplicate_after_unrelated_inserts", "reach.builder_self_reference_through_next_type_id", "reach.builder_self_reference_deduplicated_to_older_index", "reach.builder_get_beyond_end", "reach.interner_resolve_out_of_range", "reach.interner_get_unknown", "reach.interner_duplicate_after_unrelated_inserts"],
         "C07" => &["fault.unwind_in_encode_consumer.fired", "checks.encode_edit_encode", "checks.frame_decoded_alone", "frame_source.lean_registry", "frame_source.many_types", "frame_source.bulk_collection", "reach.remaining_len_none_path", "reach.io_reader_path", "benign.short_read", "benign.eintr_on_read", "benign.short_write", "compact_class.frame_len.1byte", "compact_class.frame_len.2byte", "compact_class.frame_len.4byte"],
         "C14" => &["sweep.frames_swept", "sweep.single_faults.json_structural", "sweep.single_faults.json_text", "sweep.single_faults.targeted_rewrites_x3_readers", "fault.truncate.effective", "fault.flip_bit.effective", "fault.rewrite.vec_len.effective", "fault.rewrite.id.effective", "fault.rewrite.def_tag.effective", "fault.io_error_returned_to_decoder", "reach.decode_survived_a_fault_with_a_new_registry", "reach.decode_consumed_less_than_medium", "fault.json_structural.effective", "fault.json_structural.survived", "reach.io_error_inside_frames"],
         _ => &[],
